@@ -1,4 +1,5 @@
 SPECIFICATION Spec
 CONSTANT MaxLen = 3
 INVARIANT Laws
+CONSTANT SeqMutation = "none"
 CHECK_DEADLOCK FALSE
